@@ -165,34 +165,37 @@ Section Model.
   (* ---------------- per-step residuals of a given field (C04) ----------------
      For each consecutive pair (prev, new) of a stored field, rebuild the step's matrix and
      right-hand side from prev and report  max|A new - b| / max|b|. *)
-  Definition rel_resid (rows : list (T * T * T)) (x b : list T) : T :=
-    resid_inf N rows x b /! lmax N (n0 N) (map (nabs N) b).
-  Fixpoint resid_single (alpha_s : T -> T) (m_i dx2 : T) (times mf : list T)
+  (* relative to max|b|, but never to less than [floor] (a fixed fraction of the run's initial
+     pseudopressure): once the whole profile has decayed below the solver's absolute tolerance
+     the residual is judged against the scale of the run, not against a vanishing b *)
+  Definition rel_resid (floor : T) (rows : list (T * T * T)) (x b : list T) : T :=
+    resid_inf N rows x b /! nmax N floor (lmax N (n0 N) (map (nabs N) b)).
+  Fixpoint resid_single (floor : T) (alpha_s : T -> T) (m_i dx2 : T) (times mf : list T)
            (field : list (list T)) : list T :=
     match times, mf, field with
     | t0 :: ((t1 :: _) as tt), f0 :: ft, prev :: ((new :: _) as rest) =>
         let mesh := (t1 -! t0) /! dx2 in
         let b0 := single_b0 m_i f0 prev in
-        rel_resid (rows_of N (single_k alpha_s mesh b0)) new (single_rhs alpha_s f0 mesh b0)
-        :: resid_single alpha_s m_i dx2 tt ft rest
+        rel_resid floor (rows_of N (single_k alpha_s mesh b0)) new (single_rhs alpha_s f0 mesh b0)
+        :: resid_single floor alpha_s m_i dx2 tt ft rest
     | _, _, _ => []
     end.
-  Fixpoint resid_ideal (dx2 : T) (times : list T) (field : list (list T)) : list T :=
+  Fixpoint resid_ideal (floor dx2 : T) (times : list T) (field : list (list T)) : list T :=
     match times, field with
     | t0 :: ((t1 :: _) as tt), prev :: ((new :: _) as rest) =>
         let mesh := (t1 -! t0) /! dx2 in
-        rel_resid (rows_of N (map (fun _ => mesh *! n1 N) prev)) new prev
-        :: resid_ideal dx2 tt rest
+        rel_resid floor (rows_of N (map (fun _ => mesh *! n1 N) prev)) new prev
+        :: resid_ideal floor dx2 tt rest
     | _, _ => []
     end.
-  Definition sp_residuals (fp : flowprops) (nxT : T) (times pf_sched : list T)
+  Definition sp_residuals (frac : T) (fp : flowprops) (nxT : T) (times pf_sched : list T)
              (field : list (list T)) : list T :=
     match all_some (map (m_scaled_func fp) pf_sched) with
     | None => []
-    | Some mf => resid_single (alpha_scaled fp) (fp_m_i fp) ((n1 N /! nxT) *! (n1 N /! nxT)) times mf field
+    | Some mf => resid_single (frac *! fp_m_i fp) (alpha_scaled fp) (fp_m_i fp) ((n1 N /! nxT) *! (n1 N /! nxT)) times mf field
     end.
-  Definition id_residuals (nxT : T) (times : list T) (field : list (list T)) : list T :=
-    let h := n1 N /! (nxT -! n1 N) in resid_ideal (h *! h) times field.
+  Definition id_residuals (frac nxT : T) (times : list T) (field : list (list T)) : list T :=
+    let h := n1 N /! (nxT -! n1 N) in resid_ideal (frac *! n1 N) (h *! h) times field.
 
   (* interpolator over (time, recovery) with fill (0, last) *)
   Definition rf_interp (times rec : list T) (t : T) : T :=
